@@ -18,7 +18,7 @@ THEOREMS = ["Pyro.C02.C02_translated_private", "Pyro.C02.C02_served_sound", "Pyr
             "Pyro.C02.C02_expose_marks", "Pyro.C02.C02_inherited_unexposed_refused",
             "Pyro.C02.C02_private_refused", "Pyro.C02.C02_nonstring_refused", "Pyro.C02.C02_dotted",
             "Pyro.C02.C02_unfixed_call_gate_unsound", "Pyro.C02.C02_unfixed_attr_gate_unsound",
-            "Pyro.C02.C02_gen_reserved", "Pyro.C02.C02_gen_gates", "Pyro.C02.C02_gen_sources"]
+            "Pyro.C02.C02_gen_reserved", "Pyro.C02.C02_gen_gates", "Pyro.C02.C02_gen_probes"]
 SUITES = ["dispatch", "history", "metadata", "build"]
 RULE = ("class shapes generated from VERIF_SEED: 1-3 classes in an inheritance chain, members drawn from {function, staticmethod, "
         "classmethod, property with any of getter/setter/deleter, plain attribute holding data / a helper instance / a helper class} "
@@ -38,7 +38,8 @@ ASSUMPTIONS = ["Python object model as modelled in PyroModel/Expose.lean: data d
                "is of dunder form with more than 4 characters (tests/test_server.py::testIsPrivateName)",
                "a property counts as explicitly exposed when the function expose() marks for it (fget or fset or fdel) is marked"]
 TRUSTED = ["harness/props/c02_real.py: FakeConn stands for the socket connection; classes made with type() stand for class statements",
-           "the source digests in Gen/C02.lean are of ast.unparse() of the gate functions (comments and formatting are ignored)"]
+           "the probe table in Gen/C02.lean is produced by calling the real decorators and gate functions at extraction time; its row "
+           "decoder exists twice (probe_shape in c02.py, decodeRow in PyroProps/C02.lean)"]
 
 CORPUS = os.path.join(common.VERIF, "corpus", "C02")
 
@@ -57,40 +58,6 @@ GATE_FUNCS = ["is_private_attribute", "oneway", "expose", "_get_attribute", "_ge
               "_get_exposed_property_value", "_set_exposed_property_value"]
 
 
-def _strip_doc(fn):
-    fn = copy.deepcopy(fn)
-    if fn.body and isinstance(fn.body[0], ast.Expr) and isinstance(getattr(fn.body[0], "value", None), ast.Constant) \
-            and isinstance(fn.body[0].value.value, str):
-        fn.body = fn.body[1:] or [ast.Pass()]
-    return fn
-
-
-def _calls(node, name):
-    return [c for c in ast.walk(node) if isinstance(c, ast.Call) and getattr(c.func, "id", getattr(c.func, "attr", None)) == name]
-
-
-def _raises(stmts):
-    return any(isinstance(s, ast.Raise) for s in stmts)
-
-
-def _is_priv_test(test, arg):
-    return isinstance(test, ast.Call) and getattr(test.func, "id", None) == "is_private_attribute" \
-        and len(test.args) == 1 and getattr(test.args[0], "id", None) == arg
-
-
-def _if_chain(stmt):
-    """(test, body) pairs of an if / elif chain, then the final else body"""
-    out = []
-    while isinstance(stmt, ast.If):
-        out.append((stmt.test, stmt.body))
-        if len(stmt.orelse) == 1 and isinstance(stmt.orelse[0], ast.If):
-            stmt = stmt.orelse[0]
-        else:
-            out.append((None, stmt.orelse))
-            break
-    return out
-
-
 def extract():
     """extracted facts + the Lean translation of is_private_attribute (regenerated from the source on every run)"""
     import py2lean
@@ -107,71 +74,226 @@ def extract():
     return text
 
 
+# ---- behaviour probes: the real functions are CALLED at extraction time; nothing below depends on how they are written ----------
+PROBE_KEYS = ["m", "_m", "__m__", "__call__"]
+PROBE_FNAMES = [None, "pub", "_p"]          # None: __name__ = the key
+
+
+def _probe_val(vkind, exposed, call, ids):
+    if vkind == 0:
+        return {"v": "data"}
+    if vkind == 3:
+        return {"v": "fn", "f": {"name": "plain", "fid": ids[2], "expose": bool(exposed), "oneway": False}}
+    return {"v": "inst" if vkind == 1 else "cls", "expose": bool(exposed), "call": bool(call), "callId": ids[0], "initId": ids[1]}
+
+
+def probe_shape(code):
+    """row code (15 numbers, mirrored by `decodeRow` in PyroProps/C02.lean) -> (shape description, key)"""
+    ce, kk, bk, k, a1, a2, a3, a4, a5, _a6, _a7, ip, iv, ie, ic = code
+    key = PROBE_KEYS[kk]
+
+    def fn(nk, fid, expose, oneway=False):
+        return {"name": PROBE_FNAMES[nk] or key, "fid": fid, "expose": bool(expose), "oneway": bool(oneway)}
+    if k in (0, 1, 2):
+        member = {"k": ("func", "static", "clsm")[k], "f": fn(a3, 1, a1, a2)}
+    elif k == 3:
+        member = {"k": "prop", "expose": bool(a1), "g": fn(a5, 1, a2 == 2) if a2 else None,
+                  "s": fn(a5, 2, a3 == 2) if a3 else None, "d": fn(a5, 3, a4 == 2) if a4 else None}
+    else:
+        member = {"k": "attr", "v": _probe_val(a1, a2, a3, (4, 5, 0))}
+    if bk == 0:
+        classes = [{"expose": bool(ce), "members": [[key, member]]}]
+    else:       # the member lives in an unexposed base class, the registered subclass is empty (and exposed as a class iff ce)
+        classes = [{"expose": bool(ce), "members": []}, {"expose": False, "members": [[key, member]]}]
+    inst = [[key, _probe_val(iv, ie, ic, (6, 7, 8))]] if ip else []
+    return {"classes": classes, "inst": inst}, key
+
+
+def probe_codes():
+    """the decision table's inputs: every member kind x marks, under public / private / dunder / reserved keys, class exposed or
+    not, inherited from an unexposed base, shadowed by instance attributes"""
+    M = []
+    for k in (0, 1, 2):
+        for e in (0, 1):
+            for o in ((0, 1) if k == 0 else (0,)):
+                M.append([k, e, o, 0, 0, 0, 0, 0])
+    M += [[0, 1, 0, 1, 0, 0, 0, 0], [0, 1, 0, 2, 0, 0, 0, 0], [0, 0, 0, 2, 0, 0, 0, 0]]
+    for ex in (0, 1):
+        for g in (0, 1, 2):
+            for sx in (0, 1, 2):
+                for d in (0, 2):
+                    M.append([3, ex, g, sx, d, 0, 0, 0])
+    M += [[3, 1, 1, 0, 0, 2, 0, 0], [3, 0, 2, 1, 0, 1, 0, 0], [3, 1, 0, 1, 0, 1, 0, 0]]
+    M += [[4, 0, 0, 0, 0, 0, 0, 0]] + [[4, 1, e, c, 0, 0, 0, 0] for e in (0, 1) for c in (0, 1)] + [[4, 2, e, 1, 0, 0, 0, 0] for e in (0, 1)]
+    rows = []
+    for ce in (0, 1):
+        for kk in (0, 1, 2, 3):
+            rows += [[ce, kk, 0] + m + [0, 0, 0, 0] for m in M]
+        rows += [[ce, 0, 1] + m + [0, 0, 0, 0] for m in M]
+    for inst in ([1, 0, 0, 0], [1, 1, 1, 1], [1, 1, 0, 1], [1, 3, 0, 0], [1, 3, 1, 0], [1, 2, 1, 0]):
+        rows += [[0, 0, 0] + m + inst for m in M]
+    return rows
+
+
+def _err_code(x):
+    msg = str(x)
+    if isinstance(x, AttributeError):
+        if msg.startswith("attempt to access private attribute") or msg.startswith("exposing private names"):
+            return 1
+        if msg.startswith("attempt to access unexposed attribute"):
+            return 2
+        if msg.startswith("attempt to access unexposed or unknown remote attribute"):
+            return 3
+        return 4
+    if isinstance(x, TypeError):
+        return 5
+    if isinstance(x, IndexError):
+        return 6
+    return 7
+
+
+class _Prober:
+    def __init__(self):
+        from props import c02_real
+        self.real = c02_real.Real(with_daemon=False)
+        self.server = self.real.server
+        self.n = 0
+
+    def close(self):
+        self.real.close()
+
+    def build(self, shape):
+        self.n += 1
+        names = ["P%d_%d" % (self.n, i) for i in range(max(1, len(shape["classes"])))]
+        try:
+            return self.real._materialise(shape, names)
+        finally:
+            del self.real.log[:]
+
+    def gate(self, fn, call_result=False):
+        """[0 | error code | 8 = passed the gate but is not callable] + effect ids"""
+        log = self.real.log
+        del log[:]
+        try:
+            v = fn()
+        except Exception as x:
+            return [_err_code(x)] + list(log)
+        if call_result:
+            if not callable(v):
+                return [8] + list(log)
+            try:
+                v()
+            except Exception as x:
+                return [7] + list(log)
+        return [0] + list(log)
+
+    def row(self, code):
+        shape, key = probe_shape(code)
+        try:
+            cls, obj, classes = self.build(shape)
+        except AttributeError as x:
+            return [9, _err_code(x)]
+        sv = self.server
+        out = self.gate(lambda: sv._get_attribute(obj, key), call_result=True) + [100]
+        out += self.gate(lambda: sv._get_exposed_property_value(obj, key)) + [100]
+        out += self.gate(lambda: sv._set_exposed_property_value(obj, key, 0)) + [100]
+        md = sv._get_exposed_members(obj)
+        out += [int(key in md["methods"]), int(key in md["oneway"]), int(key in md["attrs"])]
+        for c in cls.__mro__:
+            sv._reset_exposed_members(c)
+        del self.real.log[:]
+        return out
+
+    def ran(self, shape, fn):
+        """does calling fn(obj) run any target code (whatever it returns / raises)?"""
+        cls, obj, classes = self.build(shape)
+        log = self.real.log
+        try:
+            fn(obj)
+        except Exception:
+            pass
+        ran = bool(log)
+        del log[:]
+        return ran
+
+
+def _dispatch_facts(tree):
+    """Daemon.handleRequest: which gate is called where, with which of the peer-controlled values — local names are normalised to
+    their roles (the 4 targets of `.. = <x>.loadsCall(..)`: objId, method, vargs, kwargs; the batch loop rebinds the last three)"""
+    daemon = [n for n in tree.body if isinstance(n, ast.ClassDef) and n.name == "Daemon"][0]
+    hr = [n for n in daemon.body if isinstance(n, ast.FunctionDef) and n.name == "handleRequest"][0]
+    roles = {}
+    for n in ast.walk(hr):
+        if isinstance(n, ast.Assign) and len(n.targets) == 1 and isinstance(n.targets[0], ast.Tuple) and len(n.targets[0].elts) == 4 \
+                and all(isinstance(e, ast.Name) for e in n.targets[0].elts) and isinstance(n.value, ast.Call) \
+                and getattr(n.value.func, "attr", "").lstrip("_").endswith(("loadsCall", "deserializeBlobArgs")):
+            for e, r in zip(n.targets[0].elts, ("objId", "method", "vargs", "kwargs")):
+                roles.setdefault(e.id, r)
+    if sorted(roles.values()) != ["kwargs", "method", "objId", "vargs"]:
+        raise RuntimeError("handleRequest: cannot find the request fields (targets of loadsCall)")
+    inv = {r: n for n, r in roles.items()}
+    for n in ast.walk(hr):      # for <method>, <vargs>, <kwargs> in <vargs>:
+        if isinstance(n, ast.For) and isinstance(n.target, ast.Tuple) and len(n.target.elts) == 3 \
+                and getattr(n.iter, "id", None) == inv["vargs"] and all(isinstance(e, ast.Name) for e in n.target.elts):
+            for e, r in zip(n.target.elts, ("method", "vargs", "kwargs")):
+                roles.setdefault(e.id, r)
+    gates = ("_get_attribute", "_get_exposed_property_value", "_set_exposed_property_value")
+    calls = sorted((c for c in ast.walk(hr) if isinstance(c, ast.Call) and getattr(c.func, "id", None) in gates),
+                   key=lambda c: (c.lineno, c.col_offset))
+
+    class Norm(ast.NodeTransformer):
+        def visit_Name(self, node):
+            return ast.copy_location(ast.Name(id=roles.get(node.id, node.id), ctx=node.ctx), node)
+
+    def arg_text(c):
+        parts = []
+        for i, a in enumerate(c.args):
+            if i == 0 and isinstance(a, ast.Name):
+                parts.append("obj")           # whatever the local holding the target object is called
+            else:
+                parts.append(ast.unparse(Norm().visit(copy.deepcopy(a))))
+        parts += ["%s=%s" % (k.arg, ast.unparse(Norm().visit(copy.deepcopy(k.value)))) for k in c.keywords]
+        return ", ".join(parts)
+    consts = sorted(((c.lineno, c.comparators[0].value) for c in ast.walk(hr) if isinstance(c, ast.Compare)
+                     and roles.get(getattr(c.left, "id", None)) == "method" and len(c.ops) == 1 and isinstance(c.ops[0], ast.Eq)
+                     and isinstance(c.comparators[0], ast.Constant)))
+    return [c.func.id for c in calls], [arg_text(c) for c in calls], [c[1] for c in consts]
+
+
 def _extract_facts():
     common.repo_on_path()
     from Pyro5 import server
     path = server.__file__
     tree = ast.parse(open(path).read())
-    funcs = {n.name: n for n in tree.body if isinstance(n, ast.FunctionDef)}
     for f in GATE_FUNCS:
-        if f not in funcs:
+        if not callable(getattr(server, f, None)):
             raise RuntimeError("server.py: function %s not found" % f)
     reserved = sorted(server._private_dunder_methods)
     if not all(isinstance(x, str) for x in reserved):
         raise RuntimeError("_private_dunder_methods holds non-strings")
 
-    # ---- _get_attribute: private test first; is a data descriptor of the type refused before getattr(obj, attr)?
-    ga = _strip_doc(funcs["_get_attribute"])
-    args = [a.arg for a in ga.args.args]
-    if args[:2] != ["obj", "attr"] or not isinstance(ga.body[0], ast.If):
-        raise RuntimeError("_get_attribute: unrecognised shape")
-    chain = _if_chain(ga.body[0])
-    if not (_is_priv_test(chain[0][0], "attr") and _raises(chain[0][1])):
-        raise RuntimeError("_get_attribute: does not start with the private-name refusal")
-    type_first = False
-    seen_inst_getattr = False
-    for test, body in chain[1:]:
-        if test is not None:
-            dd = _calls(test, "isdatadescriptor")
-            on_type = any(isinstance(g.args[0], ast.Attribute) and g.args[0].attr == "__class__" or
-                          (isinstance(g.args[0], ast.Call) and getattr(g.args[0].func, "id", None) == "type")
-                          for d in dd for g in _calls(d, "getattr") if g.args)
-            if dd and on_type and _raises(body) and not seen_inst_getattr:
-                type_first = True
-        for s in body:
-            if any(len(g.args) == 2 and getattr(g.args[0], "id", None) == "obj" for g in _calls(s, "getattr")):
-                seen_inst_getattr = True
-    if not seen_inst_getattr:
-        raise RuntimeError("_get_attribute: no getattr(obj, attr) found")
-
-    # ---- property gates: is_private_attribute(propname) refusal as first statement?
-    def prop_gate(name):
-        fn = _strip_doc(funcs[name])
-        if [a.arg for a in fn.args.args][:2] != ["obj", "propname"]:
-            raise RuntimeError(name + ": unrecognised signature")
-        first = fn.body[0]
-        priv = isinstance(first, ast.If) and _is_priv_test(first.test, "propname") and _raises(first.body) and not first.orelse
-        cls_lookup = [g for g in _calls(fn, "getattr") if g.args and isinstance(g.args[0], ast.Attribute)
-                      and g.args[0].attr == "__class__" and getattr(g.args[1], "id", None) == "propname"]
-        if not cls_lookup:
-            raise RuntimeError(name + ": no getattr(obj.__class__, propname)")
-        return priv
-    get_priv = prop_gate("_get_exposed_property_value")
-    set_priv = prop_gate("_set_exposed_property_value")
-
-    # ---- handleRequest: order of the gate calls, constants compared with `method`
-    daemon = [n for n in tree.body if isinstance(n, ast.ClassDef) and n.name == "Daemon"][0]
-    hr = [n for n in daemon.body if isinstance(n, ast.FunctionDef) and n.name == "handleRequest"][0]
-    gate_calls = sorted(((c.lineno, c.col_offset, c.func.id) for c in ast.walk(hr) if isinstance(c, ast.Call)
-                         and getattr(c.func, "id", None) in ("_get_attribute", "_get_exposed_property_value", "_set_exposed_property_value")))
-    gate_args = [", ".join(ast.unparse(a) for a in c.args) + "".join(", %s=%s" % (k.arg, ast.unparse(k.value)) for k in c.keywords)
-                 for c in sorted((c for c in ast.walk(hr) if isinstance(c, ast.Call)
-                                  and getattr(c.func, "id", None) in ("_get_attribute", "_get_exposed_property_value", "_set_exposed_property_value")),
-                                 key=lambda c: (c.lineno, c.col_offset))]
-    consts = sorted(((c.lineno, c.comparators[0].value) for c in ast.walk(hr) if isinstance(c, ast.Compare)
-                     and getattr(c.left, "id", None) == "method" and len(c.ops) == 1 and isinstance(c.ops[0], ast.Eq)
-                     and isinstance(c.comparators[0], ast.Constant)))
-    digests = [(f, hashlib.blake2b(ast.unparse(_strip_doc(funcs[f])).encode(), digest_size=8).hexdigest()) for f in GATE_FUNCS]
+    def fn(name, fid, expose=False):
+        return {"name": name, "fid": fid, "expose": expose, "oneway": False}
+    pr = _Prober()
+    try:
+        sv = pr.server
+        # F2a: does a method-call request evaluate a property of the object (run its getter)?  unexposed and exposed property
+        props = {"classes": [{"expose": False, "members": [
+            ["p", {"k": "prop", "expose": False, "g": fn("p", 1), "s": None, "d": None}],
+            ["q", {"k": "prop", "expose": True, "g": fn("q", 2), "s": None, "d": None}]]}], "inst": []}
+        type_first = not pr.ran(props, lambda o: sv._get_attribute(o, "p")) and not pr.ran(props, lambda o: sv._get_attribute(o, "q"))
+        # F2c: do the property gates serve a property stored under a private name whose function is marked?
+        hidden = {"classes": [{"expose": False, "members": [
+            ["_h", {"k": "prop", "expose": False, "g": fn("hidden", 1, True), "s": fn("hidden_set", 2), "d": None}],
+            ["__format__", {"k": "prop", "expose": True, "g": fn("other", 3), "s": fn("other", 4), "d": None}]]}], "inst": []}
+        get_priv = not pr.ran(hidden, lambda o: sv._get_exposed_property_value(o, "_h")) \
+            and not pr.ran(hidden, lambda o: sv._get_exposed_property_value(o, "__format__"))
+        set_priv = not pr.ran(hidden, lambda o: sv._set_exposed_property_value(o, "_h", 0)) \
+            and not pr.ran(hidden, lambda o: sv._set_exposed_property_value(o, "__format__", 0))
+        table = [(code, pr.row(code)) for code in probe_codes()]
+    finally:
+        pr.close()
+    gate_calls, gate_args, consts = _dispatch_facts(tree)
 
     def lean_names(names):
         return "[" + ",\n  ".join("[" + ", ".join(str(ord(c)) for c in n) + "]" for n in names) + "]"
@@ -179,26 +301,32 @@ def _extract_facts():
     def lean_bool(b):
         return "true" if b else "false"
 
+    rows = ",\n  ".join("(%s, %s)" % (json.dumps(c), json.dumps(o)) for c, o in table)
     return f"""-- GENERATED by harness/props/c02.py from {os.path.relpath(path, common.REPO)} — do not edit
 namespace Pyro.Gen.C02
 /-- sorted server._private_dunder_methods, as readable text -/
 def reservedDundersText : List String := {json.dumps(reserved)}
 /-- the same table as code-point lists (what the model computes with) -/
 def reservedDunders : List (List Nat) := {lean_names(reserved)}
-/-- _get_attribute refuses a data descriptor found on the class before it evaluates getattr(obj, attr) -/
+/-- PROBED: _get_attribute(obj, name) does not run the getter of a property (exposed or not) named by a method-call request -/
 def callGateTypeFirst : Bool := {lean_bool(type_first)}
-/-- _get_exposed_property_value starts with the is_private_attribute refusal -/
+/-- PROBED: _get_exposed_property_value runs nothing for a marked property stored under a private / reserved name -/
 def getGatePrivate : Bool := {lean_bool(get_priv)}
-/-- _set_exposed_property_value starts with the is_private_attribute refusal -/
+/-- PROBED: _set_exposed_property_value runs nothing for a marked property stored under a private / reserved name -/
 def setGatePrivate : Bool := {lean_bool(set_priv)}
 /-- gate functions called by Daemon.handleRequest, in source order (batch loop, attribute read, attribute write, normal call) -/
-def dispatchGateCalls : List String := {json.dumps([g[2] for g in gate_calls])}
-/-- the argument lists of those calls, as written -/
+def dispatchGateCalls : List String := {json.dumps(gate_calls)}
+/-- the argument lists of those calls; local names replaced by the role of the request field they hold -/
 def dispatchGateArgs : List String := {json.dumps(gate_args)}
-/-- string constants `method` is compared with in Daemon.handleRequest, in source order -/
-def dispatchMethodConsts : List String := {json.dumps([c[1] for c in consts])}
-/-- blake2b-64 of ast.unparse (docstring removed) of every modelled function -/
-def sourceDigests : List (String × String) := [{", ".join('(%s, %s)' % (json.dumps(f), json.dumps(d)) for f, d in digests)}]
+/-- string constants the request's method name is compared with in Daemon.handleRequest, in source order -/
+def dispatchMethodConsts : List String := {json.dumps(consts)}
+/-- PROBED decision table of the real gate functions and decorators: (row code, outcome).  Row code = [class exposed, key kind,
+    inherited, member kind, 7 member parameters, 4 instance-attribute parameters]; the shape is materialised with type() and the real
+    expose/oneway, then _get_attribute (+ calling what it returns), _get_exposed_property_value, _set_exposed_property_value and
+    _get_exposed_members are called on it.  Outcome = [9, err] if a decorator refused, else
+    <call> 100 <read> 100 <write> 100 in-methods in-oneway in-attrs, each <..> = 0|error code|8 (not callable) followed by the effect ids -/
+def probeTable : List (List Nat × List Nat) := [
+  {rows}]
 end Pyro.Gen.C02
 """
 
